@@ -496,7 +496,8 @@ fn classdef_set_builder_oracle(rng: &mut Rng, st: &mut Stats, n: usize) {
 enum Dev {
     #[default]
     None,
-    Device(u16, u16, u16, Vec<u16>),
+    /// start_size, end_size, delta_format, packed words, decoded deltas
+    Device(u16, u16, u16, Vec<u16>, Vec<i8>),
     VarIdx(u16, u16),
 }
 #[derive(Clone, PartialEq, Eq, Hash, Debug, Default)]
@@ -525,9 +526,21 @@ fn hash30<T: std::fmt::Debug>(t: &T) -> i64 {
     (fnv(format!("{:?}", t).as_bytes()) & 0x3fff_ffff) as i64
 }
 
+/// reference decoder of packed Device deltas (OpenType spec: values packed from the most significant bits, two's complement)
+fn ref_decode_deltas(format: u16, words: &[u16], n: usize) -> Vec<i8> {
+    let bits = match format { 1 => 2u32, 2 => 4, 3 => 8, _ => return vec![] };
+    let per = (16 / bits) as usize;
+    (0..n)
+        .map(|i| {
+            let w = words.get(i / per).copied().unwrap_or(0) as u32;
+            let raw = (w >> (16 - bits * (i % per) as u32 - bits)) & ((1 << bits) - 1);
+            (if raw >= 1 << (bits - 1) { raw as i32 - (1 << bits) } else { raw as i32 }) as i8
+        })
+        .collect()
+}
 fn wdevice(d: &Dev) -> Option<wlayout::Device> {
     match d {
-        Dev::Device(s, e, f, w) => Some(wlayout::Device {
+        Dev::Device(s, e, f, w, _) => Some(wlayout::Device {
             start_size: *s,
             end_size: *e,
             delta_format: match f { 1 => wlayout::DeltaFormat::Local2BitDeltas, 2 => wlayout::DeltaFormat::Local4BitDeltas, _ => wlayout::DeltaFormat::Local8BitDeltas },
@@ -539,7 +552,10 @@ fn wdevice(d: &Dev) -> Option<wlayout::Device> {
 fn dev_of_w(d: Option<&wlayout::DeviceOrVariationIndex>) -> Dev {
     match d {
         None => Dev::None,
-        Some(wlayout::DeviceOrVariationIndex::Device(d)) => Dev::Device(d.start_size, d.end_size, d.delta_format as u16, d.delta_value.clone()),
+        Some(wlayout::DeviceOrVariationIndex::Device(d)) => {
+            let n = (d.end_size as usize + 1).saturating_sub(d.start_size as usize);
+            Dev::Device(d.start_size, d.end_size, d.delta_format as u16, d.delta_value.clone(), ref_decode_deltas(d.delta_format as u16, &d.delta_value, n))
+        }
         Some(wlayout::DeviceOrVariationIndex::VariationIndex(v)) => Dev::VarIdx(v.delta_set_outer_index, v.delta_set_inner_index),
         Some(_) => Dev::None,
     }
@@ -548,10 +564,11 @@ fn dev_of_r(d: Option<Result<rlayout::DeviceOrVariationIndex, read_fonts::ReadEr
     match d {
         None => Dev::None,
         Some(Ok(rlayout::DeviceOrVariationIndex::Device(d))) => {
-            Dev::Device(d.start_size(), d.end_size(), d.delta_format() as u16, d.delta_value().iter().map(|w| w.get()).collect())
+            // decoded by read-fonts Device::iter (compared with the input delta array)
+            Dev::Device(d.start_size(), d.end_size(), d.delta_format() as u16, d.delta_value().iter().map(|w| w.get()).collect(), d.iter().collect())
         }
         Some(Ok(rlayout::DeviceOrVariationIndex::VariationIndex(v))) => Dev::VarIdx(v.delta_set_outer_index(), v.delta_set_inner_index()),
-        Some(Err(_)) => Dev::Device(0xdead, 0xdead, 0xdead, vec![]),
+        Some(Err(_)) => Dev::Device(0xdead, 0xdead, 0xdead, vec![], vec![]),
     }
 }
 fn val_of_w(v: &wgpos::ValueRecord) -> Val {
@@ -1085,14 +1102,35 @@ fn emit_split_cases(pre: &[Pre], lk: &Lk, st: &mut Stats, cw: &mut Vec<String>, 
 // ------------------------------------------------------------------------------------------------
 // generators of rule sets
 
+/// Device tables of all three delta formats, lengths 1..17, negative and positive values (incl. the extremes)
+/// in every slot position of the packed words; each entry keeps its INPUT delta array for the comparison
+/// with what read-fonts Device::iter decodes.
 fn dev_pool() -> Vec<Dev> {
-    [(11u16, 13u16, vec![1i8, 0, -1]), (9, 12, vec![5, -3, 0, 7]), (8, 9, vec![100, -100]), (10, 10, vec![1])]
-        .into_iter()
-        .map(|(s, e, v)| dev_of_w(Some(&wlayout::DeviceOrVariationIndex::Device(wlayout::Device::new(s, e, &v)))))
-        .collect()
+    let mut pool = vec![];
+    // 8-bit: -127..127 here; -128 is exercised by device_roundtrip_oracle (finding device-iter-neg128-negate-overflow)
+    for (lo, hi) in [(-2i8, 1i8), (-8, 7), (-127, 127)] {
+        let pa = [lo, hi, -1, 1, lo + 1, hi - 1, -1, 0];
+        let pb = [hi, lo, 1, -1, hi - 1, lo + 1, 0, -1];
+        for len in [1usize, 2, 3, 4, 5, 7, 8, 9, 15, 16, 17] {
+            for (k, pat) in [pa, pb].iter().enumerate() {
+                let vals: Vec<i8> = (0..len).map(|i| pat[(i + k * (len % 3)) % 8]).collect();
+                // the format is chosen by Device::new from the value range: make sure the intended one is needed
+                let mut vals = vals;
+                if lo == -8 && vals.iter().all(|v| (-2..=1).contains(v)) {
+                    vals[0] = if k == 0 { -8 } else { 7 };
+                }
+                if lo == -127 && vals.iter().all(|v| (-8..=7).contains(v)) {
+                    vals[0] = if k == 0 { -127 } else { 127 };
+                }
+                let start = 8 + (len as u16 % 5);
+                let d = wlayout::Device::new(start, start + len as u16 - 1, &vals);
+                pool.push(Dev::Device(d.start_size, d.end_size, d.delta_format as u16, d.delta_value.clone(), vals));
+            }
+        }
+    }
+    pool
 }
 
-/// value record kinds: 0 x_advance; 1 x_advance+x_placement; 2 all four; 3 x_advance + device; 4 empty
 /// value record kinds -> (value mask, device mask) over [x_placement, y_placement, x_advance, y_advance] (bit i = field i).
 /// Every one of the eight ValueRecord fields occurs alone and in combinations.
 const ALL_KINDS: [u64; 15] = [0, 1, 2, 3, 5, 6, 7, 8, 9, 10, 11, 12, 13, 14, 4];
@@ -1828,6 +1866,51 @@ fn shared_subtable_family(rng: &mut Rng, st: &mut Stats, thorough: bool) {
     }
 }
 
+/// Device tables alone: every delta value of the 2- and 4-bit formats and the boundary values of the 8-bit format in
+/// every slot position, lengths 1..17: write-fonts Device::new -> dump_table -> read-fonts Device::iter == input.
+fn device_roundtrip_oracle(rng: &mut Rng, st: &mut Stats) {
+    for (fmt, lo, hi) in [(1u16, -2i16, 1i16), (2, -8, 7), (3, -128, 127)] {
+        let mut probe: Vec<i8> = if fmt == 3 { vec![-128, -127, -126, -65, -64, -9, -8, -2, -1, 0, 1, 7, 8, 63, 64, 126, 127] } else { (lo..=hi).map(|v| v as i8).collect() };
+        if fmt == 3 {
+            for _ in 0..12 {
+                probe.push(rng.range(-128, 127) as i8);
+            }
+        }
+        for len in 1usize..=17 {
+            for pos in 0..len {
+                for v in &probe {
+                    let mut vals: Vec<i8> = (0..len).map(|i| [lo as i8 + (fmt == 3) as i8, hi as i8, -1, 0, 1][(i + pos) % 5]).collect();
+                    vals[pos] = *v;
+                    // keep the intended format: some value must need it
+                    let needs = |x: &i8| match fmt { 1 => true, 2 => !(-2..=1).contains(x), _ => !(-8..=7).contains(x) };
+                    if !vals.iter().any(needs) {
+                        let q = (pos + 1) % len;
+                        if q == pos { continue; }
+                        vals[q] = hi as i8;
+                    }
+                    let vv = vals.clone();
+                    st.evaluations += 1;
+                    let got = catch(move || {
+                        let d = wlayout::Device::new(9, 9 + len as u16 - 1, &vv);
+                        let bytes = write_fonts::dump_table(&d).unwrap();
+                        let r = rlayout::Device::read(FontData::new(&bytes)).unwrap();
+                        (r.delta_format() as u16, r.iter().collect::<Vec<i8>>())
+                    });
+                    st.count(&format!("device_roundtrip_format{}", fmt));
+                    match got {
+                        Ok((f, d)) if f == fmt && d == vals => {}
+                        Ok((f, d)) => st.oracle_failure(json!({"key": format!("device-roundtrip:{:?}", vals), "what": "Device deltas decoded differently from the input", "format": f, "got": d})),
+                        Err(e) => {
+                            let key = if e.contains("negate with overflow") && vals.contains(&-128) { "device-iter-neg128-negate-overflow".to_string() } else { format!("device-roundtrip-panic:{:?}", vals) };
+                            st.oracle_failure(json!({"key": key, "what": "read-fonts Device::iter panicked on a valid Device table", "deltas": vals, "err": e}));
+                        }
+                    }
+                }
+            }
+        }
+    }
+}
+
 fn main() {
     silence_panics();
     let args: Vec<String> = std::env::args().collect();
@@ -1893,12 +1976,38 @@ fn main() {
         cases.push(mk(format!("fields-direct-varidx-{}", f), vec![d], &mut rng));
     }
     cases.push(mk("fields-direct-varidx-all".into(), vec![gen_direct_pp1_k(&mut rng, 3000, 0b1111, 0b1111)], &mut rng));
+    // mark/base anchors with a device on exactly one axis (and both, none, contour point)
+    for (n, (xd, yd)) in [(true, false), (false, true), (true, true)].iter().enumerate() {
+        let mut marks = vec![];
+        let mut bases = vec![];
+        for c in 0..3usize {
+            for m in 0..2u16 {
+                let id = (n * 100 + c * 10 + m as usize) as i64;
+                let mut a = mk_anchor(&mut rng, id, &pool, false);
+                if *xd { a.xd = pool[(id as usize * 5 + 1) % pool.len()].clone(); }
+                if *yd { a.yd = pool[(id as usize * 5 + 2) % pool.len()].clone(); }
+                marks.push((600 + c as u16 * 2 + m, c, a));
+            }
+            for b in 0..4u16 {
+                let id = (n * 100 + 50 + c * 10 + b as usize) as i64;
+                let mut a = mk_anchor(&mut rng, id, &pool, false);
+                // alternate which axis carries the device from base to base
+                if if b % 2 == 0 { *xd } else { *yd } { a.xd = pool[(id as usize * 3) % pool.len()].clone(); }
+                if if b % 2 == 0 { *yd } else { *xd } { a.yd = pool[(id as usize * 3 + 7) % pool.len()].clone(); }
+                bases.push((2000 + b, c, a));
+            }
+        }
+        cases.push(mk(format!("fields-anchor-dev-{}{}", *xd as u8, *yd as u8), vec![Spec::M2B { marks, bases }], &mut rng));
+    }
     // overflowing: 1.2x .. 4x+ of 64 KiB, each kind; several lookups to force promotion
     let k = 65536usize;
     let mut big: Vec<(String, Vec<Spec>)> = vec![
         ("big-pp1-contig".into(), vec![gen_pair_glyph_spec(&mut rng, k * 5 / 2, &pool, true, false)]),
         ("big-pp1-strided-mixed".into(), vec![gen_pair_glyph_spec(&mut rng, k * 3 / 2, &pool, false, true)]),
         ("big-pp2".into(), vec![gen_pair_class_spec(&mut rng, k * 2, &pool, false)]),
+        // >= 3-way split of a class-based PairPos with (sparse, varying) device records in BOTH value records
+        ("big-pp2-devices-3way".into(), vec![gen_pair_class_spec_k(&mut rng, k * 4, &pool, false, Some((12, 5)))]),
+        ("big-pp2-devices-3way-b".into(), vec![gen_pair_class_spec_k(&mut rng, k * 7 / 2, &pool, false, Some((13, 8)))]),
         ("big-m2b".into(), vec![gen_m2b_spec(&mut rng, k * 2, &pool)]),
         ("big-direct-varidx".into(), vec![gen_direct_pp1(&mut rng, k * 3 / 2)]),
         (
@@ -1963,6 +2072,7 @@ fn main() {
     }
 
     shared_subtable_family(&mut rng, &mut st, thorough);
+    device_roundtrip_oracle(&mut rng, &mut st);
 
     let shards = cw.finish();
     st.v.insert("shards".into(), shards.into());
